@@ -20,6 +20,9 @@ Property theorems only. Model: `ProbLogModel.DDNNF` (`evalCArr`, `loadNnf`, `nod
 import ProbLogProofs.Properties.C10
 import ProbLogProofs.Lemmas.DDNNFBridgeArr
 import ProbLogProofs.Lemmas.DDNNFBridgeFinal
+import ProbLogProofs.Lemmas.DDNNFBridgeTable
+import ProbLogProofs.Lemmas.DDNNFBridgeAD
+import Mathlib.Order.Interval.Finset.Nat
 
 open Finset
 
@@ -251,5 +254,197 @@ example : ∃ P, prepare (loadNnf exOr exCnfEv exCnfEv.names).store = .ok P ∧ 
 
 example : atomLit (loadNnf exC exCnf exCnf.names).store 1 = 1 ∧ (1 : Int).natAbs ∈ rootVarsF exC ∧
     atomLit (loadNnf exOr exCnfEv exCnfEv.names).store 2 = 2 ∧ (2 : Int).natAbs ∈ rootVarsF exOr := by decide
+
+/-! ### C01, downstream of the grounder: ground program `D` → Clark CNF → validated circuit → loaded store → evaluator -/
+
+/-- **Weight bookkeeping of `extractWeights`** (`extract_weights` + `ConstraintAD.update_weights`) for constraints with
+pairwise disjoint, duplicate-free member lists `adMembers a = a.nodes ++ extra`: a key outside every constraint with
+≥ 2 members carries `pairOf` of its stored weight (`True ↦ (1,1)`, `False ↦ (0,1)`, `None ↦ (1,0)`, `p ↦ (p, 1-p)`;
+`(1,1)` without stored weight); a member `n` carries `(p_n, 1)`; the extra node `(1 - Σ p_n, 1)`. -/
+theorem C01_extractWeights_spec (weights : List (Nat × Weight)) (ads : List ADC) (ws : List (Nat × (Rat × Rat)))
+    (h : extractWeights weights ads = .ok ws) (hnd : ∀ a ∈ ads, (adMembers a).Nodup)
+    (hpw : ads.Pairwise (fun a b => ∀ x, x ∈ adMembers a → x ∉ adMembers b)) :
+    (∀ x, (∀ a ∈ ads, 2 ≤ a.nodes.length → x ∉ adMembers a) →
+        wfun ws x = pairOf ((lookup weights x).getD .neutral)) ∧
+    (∀ a ∈ ads, 2 ≤ a.nodes.length → ∃ e, a.extra = some e ∧
+      (∀ n ∈ a.nodes, wfun ws n = ((pairOf ((lookup weights n).getD .neutral)).1, 1)) ∧
+      wfun ws e = (1 - (a.nodes.map (fun n => (pairOf ((lookup weights n).getD .neutral)).1)).foldl (· + ·) 0, 1)) :=
+  extractWeights_spec weights ads ws h hnd hpw
+
+example : ∃ ws, extractWeights [(1, .prob (3/10)), (2, .prob (1/2)), (3, .neutral), (4, .prob (1/4))]
+      [⟨0, [1, 2], some 3⟩] = .ok ws ∧
+    wfun ws 1 = (3/10, 1) ∧ wfun ws 2 = (1/2, 1) ∧ wfun ws 3 = (1/5, 1) ∧ wfun ws 4 = (1/4, 3/4) := by
+  have h : ((extractWeights [(1, .prob (3/10)), (2, .prob (1/2)), (3, .neutral), (4, .prob (1/4))]
+      [⟨0, [1, 2], some 3⟩]).toOption.map (fun ws => (wfun ws 1, wfun ws 2, wfun ws 3, wfun ws 4))) =
+      some ((3/10, 1), (1/2, 1), (1/5, 1), (1/4, 3/4)) := by decide +kernel
+  cases hw : extractWeights [(1, .prob (3/10)), (2, .prob (1/2)), (3, .neutral), (4, .prob (1/4))]
+      [⟨0, [1, 2], some 3⟩] with
+  | error e => rw [hw] at h; cases h
+  | ok ws =>
+    rw [hw] at h
+    simp only [Except.toOption, Option.map_some, Option.some.injEq, Prod.mk.injEq] at h
+    exact ⟨ws, rfl, h.1, h.2.1, h.2.2.1, h.2.2.2⟩
+
+/-- **Carry-over by `_load_nnf`**: the stored weight of the atom of variable `x` is the CNF's weight of `x`
+(`weights.get(x, True)`), and the AD constraints are the CNF's with members renamed by `atomOf`. -/
+theorem C10_loadNnf_carry (c : Circuit) (cnf : CNF) (ns : List (Label × Name × Key)) (hv : validate c = .ok)
+    (hn : litsNormal cnf c = true) :
+    (∀ x ∈ rootVarsF c, lookup (loadNnf c cnf ns).store.weights (atomOf (loadNnf c cnf ns).store x) =
+        some ((lookup cnf.weights x).getD .neutral)) ∧
+    (loadNnf c cnf ns).store.ads = cnf.ads.map (renAD (atomOf (loadNnf c cnf ns).store)) := by
+  refine ⟨?_, loadNnf_ads c cnf ns⟩
+  intro x hx
+  obtain ⟨⟨i, hi⟩, _⟩ := (loadNnf_rep c cnf ns hn).rootVar_isVar (validate_valid hv).forward x hx
+  have e1 : atomOf (loadNnf c cnf ns).store x = i := by unfold atomOf; rw [hi]; rfl
+  rw [e1]
+  exact loadNnf_repW c cnf ns hn x i hi
+
+/-- **The evaluator's table is the CNF's table** (`extractWeights` on the CNF's own weights and constraints, then
+the CNF-level evidence literals `eviD`), read through `atomOf`: provided the loaded store's evidence literals are
+the renamed `eviD` (`eviD = []`: no evidence) and all constraint members / evidence variables are circuit
+variables. -/
+theorem C01_loaded_table (c : Circuit) (cnf : CNF) (ns : List (Label × Name × Key)) (P : Prepared)
+    (wsD W : List (Nat × (Rat × Rat))) (eviD : List Int)
+    (hv : validate c = .ok) (hn : litsNormal cnf c = true)
+    (hP : prepare (loadNnf c cnf ns).store = .ok P)
+    (hads : ∀ a ∈ cnf.ads, (∀ n ∈ a.nodes, n ∈ rootVarsF c) ∧ (∀ e, a.extra = some e → e ∈ rootVarsF c))
+    (hD : extractWeights cnf.weights cnf.ads = .ok wsD)
+    (hevi : evidenceLits (loadNnf c cnf ns).store = eviD.map (atomLit (loadNnf c cnf ns).store))
+    (hevars : ∀ e ∈ eviD, e.natAbs ∈ rootVarsF c)
+    (hW : eviD.foldlM setEvidence wsD = .ok W) :
+    ∀ x ∈ rootVarsF c, wfun P.ws (atomOf (loadNnf c cnf ns).store x) = wfun W x := by
+  have hrep := loadNnf_rep c cnf ns hn
+  have hvalid := validate_valid hv
+  obtain ⟨ws0, h0, hfold, _⟩ := prepare_ok hP
+  have hbase := loadNnf_extractWeights c cnf ns hvalid hn hads h0 hD
+  rw [hevi] at hfold
+  have hrel := foldlM_setEvidence_rel (fun x y hx hy he => hrep.isVar_inj x y hx hy he) eviD ws0 wsD P.ws W
+    (fun e he => hrep.rootVar_isVar hvalid.forward _ (hevars e he)) hbase hfold hW
+  intro x hx
+  exact hrel x (hrep.rootVar_isVar hvalid.forward x hx).1
+
+/-- **C01 downstream of the grounder.** `D` an acyclic ground program (store), `cnf` its Clark completion, `c` a
+validated circuit with the CNF's models over all node ids `1..n` (`hequiv` is the conclusion of `C10_equiv`),
+loaded by `_load_nnf` and prepared by the evaluator; `W` a table over the node ids of `D` that the evaluator's
+table equals along `atomOf` (`C01_loaded_table`; its entries: `C01_extractWeights_spec`, `C10_evidence_weights`).
+Then `evaluate` returns the propositional distribution semantics of `D`: the `W`-weight of the bottom-up consistent
+total valuations `T` of `D` (each node true iff the program derives it from `T`'s atoms; AD constraints hold —
+`dagConsistent`; one per admissible atom assignment by `C09_clark_unique`) in which the query key `q` evaluates to
+true, divided by the weight of all of them iff there is evidence. -/
+theorem C01_pipeline_downstream (D : Store) (cnf : CNF) (c : Circuit) (ns : List (Label × Name × Key))
+    (P : Prepared) (q : Int) (W : List (Nat × (Rat × Rat)))
+    (hac : acyclic D = true) (hcl : clark D = .ok cnf)
+    (hv : validate c = .ok) (hn : litsNormal cnf c = true)
+    (hroot : ∃ nd, c.getLast? = some nd ∧ isCompound nd = true)
+    (h0 : ∀ κ ∈ cnf.clauses, (0 : Int) ∉ κ)
+    (hequiv : models c = cnfModels cnf.clauses (rootVarsF c))
+    (hvars : rootVarsF c = Finset.Icc 1 D.nodes.length)
+    (hP : prepare (loadNnf c cnf ns).store = .ok P) (hq : q ≠ 0) (hqn : q.natAbs ≤ D.nodes.length)
+    (hW : ∀ x ∈ rootVarsF c, wfun P.ws (atomOf (loadNnf c cnf ns).store x) = wfun W x) :
+    evaluate P (some (atomLit (loadNnf c cnf ns).store q)) =
+      if P.hasEvidence then
+        (∑ T ∈ (Finset.Icc 1 D.nodes.length).powerset with
+            (dagConsistent D T = true ∧ dagEval D (assign T) (some q) = true),
+            nodeWt W (Finset.Icc 1 D.nodes.length) T) /
+          (∑ T ∈ (Finset.Icc 1 D.nodes.length).powerset with dagConsistent D T = true,
+            nodeWt W (Finset.Icc 1 D.nodes.length) T)
+      else
+        ∑ T ∈ (Finset.Icc 1 D.nodes.length).powerset with
+            (dagConsistent D T = true ∧ dagEval D (assign T) (some q) = true),
+            nodeWt W (Finset.Icc 1 D.nodes.length) T := by
+  have hmem : q.natAbs ∈ rootVarsF c := by
+    rw [hvars, Finset.mem_Icc]; omega
+  rw [C10_evaluate_is_conditional_wmc c cnf ns P q hv hn hroot hP hq hmem,
+    models_eq_dagModels D cnf c hac hcl h0 hequiv, Finset.filter_filter, hvars]
+  have hwt : ∀ T, tableWt (loadNnf c cnf ns).store (wfun P.ws) (Finset.Icc 1 D.nodes.length) T =
+      nodeWt W (Finset.Icc 1 D.nodes.length) T := by
+    intro T
+    exact tableWt_eq_nodeWt _ _ _ _ _ (fun x hx => hW x (by rw [hvars]; exact hx))
+  have hfilter : (Finset.Icc 1 D.nodes.length).powerset.filter
+        (fun T => dagConsistent D T = true ∧ litTrue (assign T) q = true) =
+      (Finset.Icc 1 D.nodes.length).powerset.filter
+        (fun T => dagConsistent D T = true ∧ dagEval D (assign T) (some q) = true) := by
+    apply Finset.filter_congr
+    intro T _
+    constructor
+    · rintro ⟨h1, h2⟩; exact ⟨h1, by rw [← litTrue_eq_dagEval D T q hq hqn h1]; exact h2⟩
+    · rintro ⟨h1, h2⟩; exact ⟨h1, by rw [litTrue_eq_dagEval D T q hq hqn h1]; exact h2⟩
+  rw [hfilter]
+  simp only [hwt]
+
+/-- ground program `n3 = a1 ∨ a2` (query), `P(a1) = 3/10`, `P(a2) = 1/2` -/
+def exD : Store :=
+  { nodes := [.atom (.user 1) none false none, .atom (.user 2) none false none,
+              .disj [some 1, some 2] (some (.pos 7))],
+    weights := [(1, .prob (3/10)), (2, .prob (1/2))],
+    names := [(.query, .pos 7, some 3)], atomcount := 2 }
+
+/-- its Clark completion -/
+def exDcnf : CNF :=
+  { atomcount := 3, clauses := [[-3, 1, 2], [3, -1], [3, -2]], weights := exD.weights, names := exD.names, ads := [] }
+
+/-- a d-DNNF of `x3 ↔ x1 ∨ x2` (decision variables 1, then 2) -/
+def exDc : Circuit :=
+  [.lit 1, .lit 3, .lit 2, .lit (-2), .or 2 [2, 3], .and [0, 1, 4], .lit (-1), .and [2, 1], .lit (-3),
+   .and [3, 8], .or 2 [7, 9], .and [6, 10], .or 1 [5, 11]]
+
+example : acyclic exD = true ∧ validate exDc = .ok ∧ litsNormal exDcnf exDc = true ∧
+    (∃ nd, exDc.getLast? = some nd ∧ isCompound nd = true) ∧ (∀ κ ∈ exDcnf.clauses, (0 : Int) ∉ κ) ∧
+    rootVarsF exDc = Finset.Icc 1 exD.nodes.length ∧
+    atomLit (loadNnf exDc exDcnf exDcnf.names).store 3 = 2 := by decide
+
+example : clark exD = .ok exDcnf := rfl
+
+example : models exDc = cnfModels exDcnf.clauses (rootVarsF exDc) :=
+  C10_equiv exDc exDcnf.clauses (by decide) (by decide) (by decide) (by decide)
+
+/-- the pipeline's answer for the query node 3: `P(a1 ∨ a2) = 13/20`, and the table is the CNF's -/
+example : ∃ P wsD, prepare (loadNnf exDc exDcnf exDcnf.names).store = .ok P ∧
+    extractWeights exDcnf.weights exDcnf.ads = .ok wsD ∧
+    evidenceLits (loadNnf exDc exDcnf exDcnf.names).store = [] ∧
+    P.hasEvidence = false ∧ evaluate P (some 2) = 13/20 := by
+  have h : (prepare (loadNnf exDc exDcnf exDcnf.names).store).toBool = true := by decide +kernel
+  have h' : (extractWeights exDcnf.weights exDcnf.ads).toBool = true := by decide +kernel
+  cases hP : prepare (loadNnf exDc exDcnf exDcnf.names).store with
+  | error e => rw [hP] at h; cases h
+  | ok P =>
+    cases hD : extractWeights exDcnf.weights exDcnf.ads with
+    | error e => rw [hD] at h'; cases h'
+    | ok wsD =>
+      have h2 : ((prepare (loadNnf exDc exDcnf exDcnf.names).store).toOption.map
+          (fun P => (P.hasEvidence, evaluate P (some 2)))) = some (false, 13/20) := by decide +kernel
+      rw [hP] at h2
+      simp only [Except.toOption, Option.map_some, Option.some.injEq, Prod.mk.injEq] at h2
+      exact ⟨P, wsD, rfl, rfl, by decide, h2.1, h2.2⟩
+
+/-- all hypotheses of `C01_pipeline_downstream` + `C01_loaded_table` hold together on the example -/
+example : ∃ P wsD, prepare (loadNnf exDc exDcnf exDcnf.names).store = .ok P ∧
+    extractWeights exDcnf.weights exDcnf.ads = .ok wsD ∧
+    evaluate P (some (atomLit (loadNnf exDc exDcnf exDcnf.names).store 3)) =
+      if P.hasEvidence then
+        (∑ T ∈ (Finset.Icc 1 exD.nodes.length).powerset with
+            (dagConsistent exD T = true ∧ dagEval exD (assign T) (some 3) = true),
+            nodeWt wsD (Finset.Icc 1 exD.nodes.length) T) /
+          (∑ T ∈ (Finset.Icc 1 exD.nodes.length).powerset with dagConsistent exD T = true,
+            nodeWt wsD (Finset.Icc 1 exD.nodes.length) T)
+      else
+        ∑ T ∈ (Finset.Icc 1 exD.nodes.length).powerset with
+            (dagConsistent exD T = true ∧ dagEval exD (assign T) (some 3) = true),
+            nodeWt wsD (Finset.Icc 1 exD.nodes.length) T := by
+  have h : (prepare (loadNnf exDc exDcnf exDcnf.names).store).toBool = true := by decide +kernel
+  have h' : (extractWeights exDcnf.weights exDcnf.ads).toBool = true := by decide +kernel
+  cases hP : prepare (loadNnf exDc exDcnf exDcnf.names).store with
+  | error e => rw [hP] at h; cases h
+  | ok P =>
+    cases hD : extractWeights exDcnf.weights exDcnf.ads with
+    | error e => rw [hD] at h'; cases h'
+    | ok wsD =>
+      have hequiv : models exDc = cnfModels exDcnf.clauses (rootVarsF exDc) :=
+        C10_equiv exDc exDcnf.clauses (by decide) (by decide) (by decide) (by decide)
+      refine ⟨P, wsD, rfl, rfl, ?_⟩
+      exact C01_pipeline_downstream exD exDcnf exDc exDcnf.names P 3 wsD (by decide) rfl (by decide) (by decide)
+        (by decide) (by decide) hequiv (by decide) hP (by decide) (by decide)
+        (C01_loaded_table exDc exDcnf exDcnf.names P wsD wsD [] (by decide) (by decide) hP
+          (by intro a ha; simp [exDcnf] at ha) hD (by decide) (by intro e he; simp at he) rfl)
 
 end ProbLogProofs.C10
